@@ -86,7 +86,7 @@ func TestKnown(t *testing.T)  { kit.RunKnown(t) }
 func TestReplay(t *testing.T) { kit.RunReplay(t) }
 
 func TestDocs(t *testing.T) {
-	kit.Rapid(t, "docs", 200000, 3000000, func(t *rapid.T) {
+	kit.Rapid(t, "docs", 200000, 6000000, func(t *rapid.T) {
 		cfg := gen.DrawConfig(t, gen.ConfigOpts{})
 		src, class := gen.Doc(t, gen.Any, kit.Pick(40, 120), "d")
 		run(t, cfg, src, class)
@@ -94,7 +94,7 @@ func TestDocs(t *testing.T) {
 }
 
 func TestNest(t *testing.T) {
-	kit.Rapid(t, "nest", 3000, 60000, func(t *rapid.T) {
+	kit.Rapid(t, "nest", 3000, 120000, func(t *rapid.T) {
 		cfg := gen.DrawConfig(t, gen.ConfigOpts{})
 		src := gen.Nest(t, gen.Any, 16384, "n")
 		run(t, cfg, src, "nest")
